@@ -22,6 +22,19 @@ def load_mutants(prop):
                 if meta.get("property") == prop:
                     out.append({"id": "seed:" + d, "property": prop, "rules": meta.get("caught_by_rules", []), "patch": pp, "kind": "seed",
                                 "note": meta.get("summary", "")})
+    # behaviour-preserving refactorings that exercise this property's rules: the check must stay silent
+    rd = os.path.join(VERIF, "refactorings")
+    if os.path.isdir(rd):
+        for d in sorted(os.listdir(rd)):
+            mp = os.path.join(rd, d, "meta.json")
+            pp = os.path.join(rd, d, "patch.diff")
+            if os.path.exists(mp) and os.path.exists(pp):
+                try:
+                    meta = json.load(open(mp))
+                except Exception:
+                    continue
+                if prop in (meta.get("selftest_silent") or []):
+                    out.append({"id": "twin:" + d, "property": prop, "rules": [], "patch": pp, "kind": "twin", "note": meta.get("summary", "")[:200]})
     return out
 
 def run_one(m, base):
@@ -48,6 +61,9 @@ def run_one(m, base):
         rules = sorted({l.split("rule=")[1].split()[0] for l in r.stdout.splitlines() if "rule=" in l})
         if "build" in rules:
             return dict(id=m["id"], status="skipped", why="mutant does not compile")
+        if m["kind"] == "twin":
+            # a refactoring that keeps the behaviour: any report is a false alarm of the checker
+            return dict(id=m["id"], status="silent" if r.returncode == 0 else "MISS", rules=rules, note=("FALSE ALARM on a behaviour-preserving twin: " if r.returncode else "") + (m.get("note") or ""))
         if r.returncode == 0:
             return dict(id=m["id"], status="MISS", rules=[], note=m.get("note"))
         exp = set(m.get("rules") or [])
